@@ -108,6 +108,11 @@ func NewJsonNode(n interface{}) (JsonNode, error) {
 		return jsonNumber(t), nil
 	case int:
 		return jsonNumber(t), nil
+	case int64:
+		return jsonNumber(t), nil
+	case uint64:
+		// The YAML decoder yields uint64 for integers above the int64 range.
+		return jsonNumber(t), nil
 	case string:
 		return jsonString(t), nil
 	case bool:
